@@ -8,7 +8,7 @@ struct World {
     File f;
     Block b, b2;
     DataArray da1, da2, pos, ext, feat, da_u, b2_pos;
-    DataFrame df;
+    DataFrame df, b2_df;
     Tag tag, tag_u; MultiTag mtag; Group grp;
     Source src, src_child, src_child2, src_leaf, src2;
     Section sec, sec_child, sec_grand, sec2;
@@ -66,11 +66,14 @@ inline void build_world(World &w, FileMode mode = FileMode::Overwrite) {
     w.ext.appendSetDimension();
     w.feat = w.b.createDataArray("feat", "feature", DataType::Double, NDSize({2}));
     { std::vector<double> v = {10.0, 20.0}; w.feat.setData(v); }
-    w.feat.appendSetDimension();
 
     w.df = w.b.createDataFrame("df", "table", {{"id", "", DataType::Int64}, {"name", "", DataType::String}, {"val", "mV", DataType::Double}});
     w.df.rows(2);
     w.df.writeRow(0, {Variant((int64_t)7), Variant(std::string("seven")), Variant(0.25)});
+    w.feat.appendDataFrameDimension(w.df, 2);                              // a data frame held by a dimension (block with tags and a group)
+    w.b2_df = w.b2.createDataFrame("df2", "table", {{"k", "", DataType::Int64}});
+    w.b2_df.rows(2);
+    w.b2_pos.appendDataFrameDimension(w.b2_df);                            // ... and in a block that has nothing but arrays and frames
 
     w.tag = w.b.createTag("tag", "event", {1.5});
     w.tag.extent({1.0});
@@ -102,7 +105,7 @@ inline void rebind_world(World &w) {
     if (!w.b) return;
     w.src = w.b.getSource("src"); w.src_child = w.src ? w.src.getSource("child") : Source(); w.src2 = w.b.getSource("src2");
     w.src_child2 = w.src ? w.src.getSource("child2") : Source(); w.src_leaf = w.src_child2 ? w.src_child2.getSource("leaf") : Source();
-    w.da_u = w.b.getDataArray(UUID_NAME); w.tag_u = w.b.getTag(UUID_NAME); w.b2_pos = w.b2 ? w.b2.getDataArray("pos") : DataArray();
+    w.da_u = w.b.getDataArray(UUID_NAME); w.tag_u = w.b.getTag(UUID_NAME); w.b2_pos = w.b2 ? w.b2.getDataArray("pos") : DataArray(); w.b2_df = w.b2 ? w.b2.getDataFrame("df2") : DataFrame();
     w.da1 = w.b.getDataArray("da1"); w.da2 = w.b.getDataArray("da2"); w.pos = w.b.getDataArray("pos"); w.ext = w.b.getDataArray("ext"); w.feat = w.b.getDataArray("feat");
     w.df = w.b.getDataFrame("df"); w.tag = w.b.getTag("tag"); w.mtag = w.b.getMultiTag("mtag"); w.grp = w.b.getGroup("grp");
     if (w.tag && w.tag.featureCount() > 0) w.tfeat = w.tag.getFeature((ndsize_t)0);
@@ -111,7 +114,7 @@ inline void rebind_world(World &w) {
 
 inline void drop_handles(World &w) {
     w.tfeat = none; w.mfeat = none; w.prop = none; w.prop2 = none;
-    w.grp = none; w.mtag = none; w.tag = none; w.tag_u = none; w.df = DataFrame(); w.da_u = none; w.b2_pos = none; w.src_leaf = none; w.src_child2 = none;
+    w.grp = none; w.mtag = none; w.tag = none; w.tag_u = none; w.df = DataFrame(); w.b2_df = DataFrame(); w.da_u = none; w.b2_pos = none; w.src_leaf = none; w.src_child2 = none;
     w.feat = none; w.ext = none; w.pos = none; w.da2 = none; w.da1 = none;
     w.src_child = none; w.src2 = none; w.src = none; w.b2 = none; w.b = none;
     w.sec_grand = none; w.sec_child = none; w.sec2 = none; w.sec = none;
